@@ -9,9 +9,7 @@ from rules.g_cover import entries_of, reachable
 
 
 def lexeme_fn(f):
-    out = f.out_ty
-    return (out is not None and out.get('k') == 'path' and out['p'] in ('Locate', 'Span')) \
-        or any(sx.is_call(n, 'concat') for n in sx.walk(f.item.get('body')))
+    return bool(getattr(f, 'lexeme', False))
 
 
 # ------------------------------------------------------------------------- G0
@@ -93,7 +91,7 @@ def nullability(g):
         if op == 'closure':
             return nl(ir['ir'])
         unknown.append(ir)
-        return True  # unknown: assume the worst for loop operands
+        return False  # unknown: reported as undecided; not used to raise loop alarms
 
     changed = True
     while changed:
@@ -140,9 +138,13 @@ def g9(ctx):
                        '%s: %s over %s, which can succeed without consuming input: nom turns that into an error (many0/many1) '
                        'or an endless loop (list), so the production can never succeed there' %
                        (f.name, op, grammar.show(operand)[:80]))
-    for u in unknown[:5]:
-        r.fail('%s:unmodelled-nullability:%s' % (g.crate, grammar.show(u)[:40]), '-',
-               'nullability of `%s` cannot be decided (fail closed)' % grammar.show(u)[:80])
+    seen_u = set()
+    for u in unknown:
+        t_ = grammar.show(u)[:60]
+        if t_ in seen_u:
+            continue
+        seen_u.add(t_)
+        r.undecided('%s:unmodelled-nullability:%s' % (g.crate, t_[:40]), '-', 'nullability of `%s` is not decided (assumed non-nullable)' % t_)
     r.floor('repetition_sites', n, 300)
     r.notes.append('nullable productions: ' + ', '.join(sorted(k for k, v in val.items() if v))[:1500])
     return r
